@@ -253,6 +253,18 @@ def nd_binop(I, st, op, a, b):
 
 def nd_compare(I, st, op, a, b):
     M = _M()
+    if (isinstance(a, M.Inf) or isinstance(b, M.Inf)) and op in ("Lt", "LtE", "Gt", "GtE"):
+        # array against float("inf"): elementwise, every (finite, A1) element is strictly between -inf and +inf
+        arr = b if isinstance(a, M.Inf) else a
+        sh, d = asnd(I, st, arr)
+        out = []
+        for x in d:
+            outs = list(M.compare(I, st, op, a if isinstance(a, M.Inf) else x, b if isinstance(b, M.Inf) else x))
+            if len(outs) != 1 or isinstance(outs[0][1], Exc):
+                raise Unsupported("array comparison with inf")
+            out.append(outs[0][1])
+        yield st, st.alloc(NdE(sh, out))
+        return
     sa, da = asnd(I, st, a)
     sb, db = asnd(I, st, b)
     try:
@@ -680,6 +692,20 @@ def make_module(I):
         return r
 
     reg("sum", _sum)
+
+    def _mean(I, st, v, axis=None):
+        # A1: arithmetic mean over the reals of all elements (no axis); the mean of an empty array is nan: outside the model
+        if axis is not None:
+            raise Unsupported("np.mean axis")
+        s, d = asnd(I, st, v)
+        if not d:
+            raise Unsupported("np.mean of an empty array (nan)")
+        r = 0
+        for x in d:
+            r = scalar_op(I, st, "Add", r, x)
+        return scalar_op(I, st, "Div", tofloat(r), len(d))
+
+    reg("mean", _mean)
 
     def _all(I, st, v):
         s, d = asnd(I, st, v)
